@@ -4,7 +4,7 @@
    of coq/C04/Spec.v.  Proofs are in coq/C04/Proofs*.v; nothing here but statements.
    Every theorem is for ALL configurations (any number and kind of processors), all start options and
    ALL sequences of operations (incl. operations after End and further Ends). *)
-From V Require Import C04.Glue C04.ProofsMap C04.ProofsStep C04.ProofsMeets C04.ProofsHeap C04.ProofsProps C04.ProofsWire C04.ProofsPar C04.ProofsRace C04.ProofsLts C04.ProofsLtsOrder C04.ProofsLtsRace C04.ProofsLtsCut C04.ProofsLtsRec C04.ProofsLtsHist.
+From V Require Import C04.Glue C04.ProofsMap C04.ProofsStep C04.ProofsMeets C04.ProofsHeap C04.ProofsProps C04.ProofsWire C04.ProofsPar C04.ProofsRace C04.ProofsLts C04.ProofsLtsOrder C04.ProofsLtsRace C04.ProofsLtsCut C04.ProofsLtsRec C04.ProofsLtsHist C04.ProofsMrace.
 Local Open Scope Z_scope.
 
 (* --- sentence 1: what each configured processor's exporter receives.  The whole final state of a case:
@@ -173,7 +173,7 @@ Print Assumptions model_meets_spec_wire.
    verdicts are on explored schedules only - no theorem); for the cases above, with or without the "|| <trace>" the runner
    appends, they are the functions of the previous theorem *)
 Theorem model_meets_spec_entry : forall (l tr : list tok) (c : case),
-  parse_case l = Some c -> is_srace l = false -> plain "||" l ->
+  parse_case l = Some c -> is_srace l = false -> is_mrace l = false -> plain "||" l ->
   run_spec (l ++ tag "||" :: tr) (run_model (l ++ tag "||" :: tr)) = [] /\ run_spec l (run_model l) = [].
 Proof. exact model_meets_spec_entry_lemma. Qed.
 Print Assumptions model_meets_spec_entry.
@@ -302,3 +302,13 @@ Theorem accepted_trace_meets_spec_race : forall rc evs s',
   race_check (rc_cfg rc) (rc_start rc) (race_threads rc) (hist_of evs) (l_got s') = [].
 Proof. exact ProofsLtsHist.accepted_srace_run_meets_spec'. Qed.
 Print Assumptions accepted_trace_meets_spec_race.
+
+(* --- MRACE cases: several spans, one thread each, ended concurrently on the same processors.  Each span is used by one thread
+   only, so what every processor must receive for it is the sequential export of that thread's operations; the model prints
+   exactly that, one slot per (processor, span), and it passes the SPEC [mrace_check] (every span exactly once per processor, its
+   own content, no null entry, nothing changed while an exporter held it).  That the PROCESSORS deliver so under concurrent Ends
+   (the simple processor's lock_, its batch over the caller's unique_ptr) is outside Lts.v: it is decided by this SPEC and the
+   model/implementation comparison on the explored schedules *)
+Theorem mrace_model_meets_spec : forall mc, c_sampled (mc_cfg mc) = true -> mrace_check mc 0 0 (mrace_model_procs mc) = [].
+Proof. exact ProofsMrace.mrace_model_meets_spec. Qed.
+Print Assumptions mrace_model_meets_spec.
